@@ -374,6 +374,9 @@ fn batch(sh: &mut Shell, run: u64, items: &[Item], paused: bool, next_id: &mut i
     if replied.len() > 1 {
         bump(cover, "batch:replies-to-several-clients");
     }
+    if cl.iter().any(|q| q.len() > 1) {
+        bump(cover, "batch:several-replies-to-one-client");
+    }
     if c_delivered > 0 && !replied.is_empty() {
         bump(cover, "batch:both-directions");
     }
@@ -449,6 +452,10 @@ fn one_run(rng: &mut StdRng, run: u64, steps: usize, w: &mut BufWriter<std::fs::
                     // both directions in one poll turn: a reply for every flow seen so far, client datagrams between them
                     for (j, &(u, owner)) in upstreams.clone().iter().enumerate() {
                         items.push(Item::B(owner, u, false, len(rng)));
+                        if j == 0 {
+                            // two replies wait on one upstream socket
+                            items.push(Item::B(owner, u, false, len(rng)));
+                        }
                         items.push(Item::C([2usize, 3, 0, 1][j % 4], len(rng)));
                     }
                 } else {
